@@ -77,7 +77,8 @@ Inductive item :=
 | IPrim (tag : Z) (l : leaf)
 | IStruct (tag : Z) (ch : list item).
 
-Inductive wkind := KBin | KXml | KJson | KText.
+Inductive tkind := KXml | KJson | KText.
+Inductive wkind := KBin | KTok (k : tkind).
 
 (** Writer state.
     - [WBin buf]: [ttlvWriter.buf].
@@ -87,19 +88,19 @@ Inductive wkind := KBin | KXml | KJson | KText.
       far).  For XML the stack is also the element stack of the [xml.Encoder]. *)
 Inductive wstate :=
 | WBin (buf : list Z)
-| WTok (k : wkind) (done : list item) (stack : list (Z * list item)).
+| WTok (k : tkind) (done : list item) (stack : list (Z * list item)).
 
 (** [newTTLVWriter] / [newXMLWriter] / [newJSONWriter] / [newTextWriter] *)
 Definition w_new (k : wkind) : wstate :=
   match k with
   | KBin => WBin []
-  | _ => WTok k [] []
+  | KTok k => WTok k [] []
   end.
 
 Definition w_kind (w : wstate) : wkind :=
   match w with
   | WBin _ => KBin
-  | WTok k _ _ => k
+  | WTok k _ _ => KTok k
   end.
 
 (** All four writers [panic("interval cannot be negative")] before writing anything. *)
@@ -217,7 +218,8 @@ Definition w_view (w : wstate) : view :=
 (** [Encoder{*extension, w writer}]. Nested encoders ([Encoder.Struct]) are
     [&Encoder{enc.extension, w}]: same extension pointer, so a version set inside a nested
     structure is seen by everything encoded afterwards - modelled by threading one [enc].
-    [e_log] is a ghost: the types looked up in the plan cache by [encodeValue]. *)
+    [e_log] is a ghost: the types looked up in the plan cache by [encodeValue] since the
+    encoder was created or cleared. *)
 Record enc := Enc { e_ext : ext; e_w : wstate; e_log : list Z }.
 
 Definition set_w (e : enc) (w : wstate) : enc := Enc (e_ext e) w (e_log e).
@@ -228,7 +230,7 @@ Definition add_log (e : enc) (ty : Z) : enc := Enc (e_ext e) (e_w e) (e_log e ++
 Definition enc_new (k : wkind) : enc := Enc None (w_new k) [].
 
 (** [Encoder.Clear]: [enc.extension.version = nil; enc.w.Clear()] *)
-Definition enc_clear (e : enc) : enc := Enc None (w_clear (e_w e)) (e_log e).
+Definition enc_clear (e : enc) : enc := Enc None (w_clear (e_w e)) [].
 
 (** Outcome of a call: normal return, Go panic (state left as it was at the panic), or
     [SBad]: the model was given a value that does not have the plan's type (excluded by
@@ -252,18 +254,23 @@ Inductive prog :=
 | PStruct (tag : Z) (body : list prog)
 | PAbort.
 
+(** The callback of [Encoder.Struct]: the calls one after the other, until one panics. *)
+Definition run_seq (f : prog -> enc -> enc * status) : list prog -> enc -> enc * status :=
+  fix go (ps : list prog) (e : enc) : enc * status :=
+    match ps with
+    | [] => (e, SOk)
+    | q :: qs => andthen (f q e) (go qs)
+    end.
+
+(** [Encoder.Struct(tag, f)]: [enc.w.Struct(tag, func(w) { f(&Encoder{enc.extension, w}) })] *)
+Definition in_struct (tag : Z) (body : enc -> enc * status) (e : enc) : enc * status :=
+  let '(w1, off) := w_open (e_w e) tag in
+  andthen (body (set_w e w1)) (fun e2 => (set_w e2 (w_close (e_w e2) off), SOk)).
+
 Fixpoint run_prog (p : prog) (e : enc) : enc * status :=
   match p with
   | PLeaf tag l => put_leaf tag l e
-  | PStruct tag body =>
-      let '(w1, off) := w_open (e_w e) tag in
-      andthen
-        ((fix go (ps : list prog) (e : enc) : enc * status :=
-            match ps with
-            | [] => (e, SOk)
-            | q :: qs => andthen (run_prog q e) (go qs)
-            end) body (set_w e w1))
-        (fun e2 => (set_w e2 (w_close (e_w e2) off), SOk))
+  | PStruct tag body => in_struct tag (run_seq run_prog body) e
   | PAbort => (e, SPanic)
   end.
 
@@ -340,78 +347,108 @@ Section Exec.
   (** [e.encodeValue(tag, v)] for a value of dynamic type [ty] is [dyn ty ...] below.
       Field wrappers, outermost first: applySetVersionEncode (sets the version, always),
       applyVersionRangeEncode (skips the field), applyOmitEmptyEncode (skips zero values). *)
+  (** [e.encodeValue(tag, v)] with [v] of dynamic type [ty]: cache lookup, then the plan. *)
+  Definition dyn (rec : plan -> Z -> value -> enc -> enc * status) (ty : Z) (tag : Z) (v : value) (e : enc)
+    : enc * status :=
+    match lk ty with
+    | Some q => rec q tag v (add_log e ty)
+    | None => (add_log e ty, SPanic)
+    end.
+
+  (** applySetVersionEncode: [e.setVersion(v.Interface().(Version))] ([None]: ill-typed). *)
+  Definition field_setver (o : fopts) (x : value) (e : enc) : option enc :=
+    if f_setver o
+    then match value_version x with
+         | Some vv => Some (set_ext e (Some vv))
+         | None => None
+         end
+    else Some e.
+
+  (** applyVersionRangeEncode / applyOmitEmptyEncode: is the field skipped? *)
+  Definition field_skipped (o : fopts) (x : value) (e : enc) : bool :=
+    negb (match f_range o with
+          | Some r => version_in (e_ext e) r
+          | None => true
+          end)
+    || (f_omit o && is_zero x).
+
+  (** One entry of [fieldsEncode]. *)
+  Definition exec_field (rec : plan -> Z -> value -> enc -> enc * status) (f : fplan) (x : value) (e : enc)
+    : enc * status :=
+    match f with
+    | FStatic o q =>
+        match field_setver o x e with
+        | None => (e, SBad)
+        | Some e1 => if field_skipped o x e1 then (e1, SOk) else rec q (f_tag o) x e1
+        end
+    | FDynamic =>
+        match x with
+        | VNil => (e, SOk)
+        | VIface ty v' =>
+            match tag_of ty with
+            | None => (e, SPanic)
+            | Some t => dyn rec ty t v' e
+            end
+        | _ => (e, SBad)
+        end
+    end.
+
+  (** [for i := range v.Len() { ff(e, tag, v.Index(i)) }] *)
+  Definition exec_seq (f : value -> enc -> enc * status) : list value -> enc -> enc * status :=
+    fix go (vs : list value) (e : enc) : enc * status :=
+      match vs with
+      | [] => (e, SOk)
+      | x :: xs => andthen (f x e) (go xs)
+      end.
+
+  (** [for _, fe := range fieldsEncode { fe(e, v) }] *)
+  Definition exec_fields (g : fplan -> value -> enc -> enc * status)
+    : list fplan -> list value -> enc -> enc * status :=
+    fix go (fs : list fplan) (vs : list value) (e : enc) {struct vs} : enc * status :=
+      match fs, vs with
+      | [], [] => (e, SOk)
+      | f :: fs', x :: xs => andthen (g f x e) (go fs' xs)
+      | _, _ => (e, SBad)
+      end.
+
   Fixpoint exec (p : plan) (tag : Z) (v : value) (e : enc) {struct v} : enc * status :=
     match p, v with
     | PlLeaf k, VLeaf l => if leaf_matches k l then put_leaf tag l e else (e, SBad)
     | PlPtr _, VNil => (e, SOk)
     | PlPtr q, VPtr v' => exec q tag v' e
-    | PlSlice q, VList vs =>
-        (fix go (vs : list value) (e : enc) : enc * status :=
-           match vs with
-           | [] => (e, SOk)
-           | x :: xs => andthen (exec q tag x e) (go xs)
-           end) vs e
-    | PlStruct fs, VStruct vs =>
-        let '(w1, off) := w_open (e_w e) tag in
-        andthen
-          ((fix go (fs : list fplan) (vs : list value) (e : enc) {struct vs} : enc * status :=
-              match fs, vs with
-              | [], [] => (e, SOk)
-              | f :: fs', x :: xs =>
-                  andthen
-                    (match f with
-                     | FStatic o q =>
-                         match (if f_setver o
-                                then match value_version x with
-                                     | Some vv => Some (set_ext e (Some vv))
-                                     | None => None
-                                     end
-                                else Some e) with
-                         | None => (e, SBad)
-                         | Some e1 =>
-                             if negb (match f_range o with
-                                      | Some r => version_in (e_ext e1) r
-                                      | None => true
-                                      end) then (e1, SOk)
-                             else if f_omit o && is_zero x then (e1, SOk)
-                             else exec q (f_tag o) x e1
-                         end
-                     | FDynamic =>
-                         match x with
-                         | VNil => (e, SOk)
-                         | VIface ty v' =>
-                             match tag_of ty with
-                             | None => (e, SPanic)
-                             | Some t =>
-                                 match lk ty with
-                                 | Some q => exec q t v' (add_log e ty)
-                                 | None => (add_log e ty, SPanic)
-                                 end
-                             end
-                         | _ => (e, SBad)
-                         end
-                     end)
-                    (go fs' xs)
-              | _, _ => (e, SBad)
-              end) fs vs (set_w e w1))
-          (fun e2 => (set_w e2 (w_close (e_w e2) off), SOk))
+    | PlSlice q, VList vs => exec_seq (exec q tag) vs e
+    | PlStruct fs, VStruct vs => in_struct tag (exec_fields (exec_field exec) fs vs) e
     | PlIface, VNil => (e, SOk)
-    | PlIface, VIface ty v' =>
-        match lk ty with
-        | Some q => exec q tag v' (add_log e ty)
-        | None => (add_log e ty, SPanic)
-        end
+    | PlIface, VIface ty v' => dyn exec ty tag v' e
     | _, _ => (e, SBad)
     end.
 
   (** [Encoder.TagAny(tag, value)] for a value whose static type [ty] takes the reflective
       path: [enc.encodeValue(tag, reflect.ValueOf(v))]. *)
   Definition encode_top (ty : Z) (tag : Z) (v : value) (e : enc) : enc * status :=
-    match lk ty with
-    | Some q => exec q tag v (add_log e ty)
-    | None => (add_log e ty, SPanic)
-    end.
+    dyn exec ty tag v e.
 End Exec.
+
+(** The message carries its own version first: following the first field of each leading
+    structure (no options on the way down) reaches a set-version field before anything
+    is asked about the version. KMIP messages have this shape (RequestMessage >
+    RequestHeader > ProtocolVersion). *)
+Fixpoint sets_first (p : plan) (v : value) {struct v} : bool :=
+  match v with
+  | VPtr v' => match p with PlPtr q => sets_first q v' | _ => false end
+  | VStruct (x :: _) =>
+      match p with
+      | PlStruct (FStatic o q :: _) =>
+          if f_setver o
+          then match value_version x with Some _ => true | None => false end
+          else match f_range o with
+               | None => negb (f_omit o) && sets_first q x
+               | Some _ => false
+               end
+      | _ => false
+      end
+  | _ => false
+  end.
 
 (* ------------------------------------------------------------------------------------ *)
 (** * Call histories on one Encoder *)
